@@ -126,7 +126,40 @@ def concrete(typ, role, ptr, default, envpat, clipat, rnd, custom=None, tag=""):
     return case, abstract
 
 
+def _ascii_ids(abstracts):
+    """token ids handed to TLC are plain ASCII names (t0, t1, ..): TLC re-encodes non-ASCII strings when states spill to disk,
+    which once turned 'éè' into other characters on the way back (false alarm in the thorough tier of C13)"""
+    out, maps = [], []
+    for a in abstracts:
+        m, back = {}, {}
+
+        def tid(x):
+            if x not in m:
+                m[x] = "t%d" % len(m)
+                back[m[x]] = x
+            return m[x]
+        b = {"multi": a["multi"],
+             "envs": [{"state": e["state"], "elems": [{"id": tid(t["id"]), "ok": t["ok"]} for t in e["elems"]]} for e in a["envs"]],
+             "cli": [{"id": tid(t["id"]), "ok": t["ok"]} for t in a["cli"]]}
+        out.append(b)
+        maps.append(back)
+    return out, maps
+
+
+def _back(o, back):
+    def tr(call):
+        for pre in ("S!:", "S:"):
+            if call.startswith(pre):
+                return pre + back.get(call[len(pre):], call[len(pre):])
+        return call
+    o["val"] = [back.get(x, x) for x in o["val"]]
+    o["envlog"] = [tr(c) for c in o["envlog"]]
+    o["filllog"] = [tr(c) for c in o["filllog"]]
+    return o
+
+
 def predict(workdir, abstracts, timeout=1800):
+    abstracts, maps = _ascii_ids(abstracts)
     with open(os.path.join(workdir, "valcases.json"), "w") as f:
         json.dump(abstracts, f)
     res = core.run_tlc(workdir, "Values", timeout=timeout)
@@ -137,7 +170,7 @@ def predict(workdir, abstracts, timeout=1800):
         (dev if o["dev"] else clean)[o["ci"]] = o
     if len(clean) != len(abstracts) or len(dev) != len(abstracts):
         raise core.Broken("Values.tla emitted %d/%d predictions for %d cases" % (len(clean), len(dev), len(abstracts)))
-    return res, [clean[i] for i in range(len(abstracts))], [dev[i] for i in range(len(abstracts))]
+    return res, [_back(clean[i], maps[i]) for i in range(len(abstracts))], [_back(dev[i], maps[i]) for i in range(len(abstracts))]
 
 
 def canon_default(typ, d):
